@@ -85,6 +85,8 @@ pub struct Outcome {
 enum TS {
   Runnable,
   Parked,
+  /// parked with a timeout: the scheduler may make it runnable again without an unpark ("fire the timeout")
+  ParkedT,
   Mutex(usize),
   Join(Tid),
   Finished,
@@ -108,6 +110,8 @@ impl Rng {
 struct State {
   ts: Vec<TS>,
   token: Vec<bool>,
+  /// the timeout of a `ParkedT` thread was fired by the scheduler (it was not unparked)
+  fired: Vec<bool>,
   active: Option<Tid>,
   abort: Option<Status>,
   done: bool,
@@ -256,6 +260,25 @@ impl State {
     m
   }
 
+  /// threads parked with a timeout: candidates of every decision (choosing one = its timeout fires)
+  fn timed_mask(&self) -> u32 {
+    let mut m = 0u32;
+    for (i, s) in self.ts.iter().enumerate() {
+      if *s == TS::ParkedT {
+        m |= 1 << i;
+      }
+    }
+    m
+  }
+
+  /// `t` was chosen: a thread parked with a timeout becomes runnable with its timeout fired
+  fn wake_chosen(&mut self, t: Tid) {
+    if self.ts[t] == TS::ParkedT {
+      self.ts[t] = TS::Runnable;
+      self.fired[t] = true;
+    }
+  }
+
   fn lower_prio(&mut self, t: Tid) {
     self.low -= 1;
     self.prio[t] = self.low;
@@ -270,8 +293,17 @@ impl State {
   /// the default policy continues with the holder if it is a candidate, else
   /// with the next candidate after it in cyclic tid order (fair under yields).
   fn pick_from(&mut self, holder: Option<Tid>, me: Option<Tid>, yielding: bool) -> Option<Tid> {
+    let c = self.pick_from0(holder, me, yielding);
+    if let Some(t) = c {
+      self.wake_chosen(t);
+    }
+    c
+  }
+
+  fn pick_from0(&mut self, holder: Option<Tid>, me: Option<Tid>, yielding: bool) -> Option<Tid> {
     let runnable = self.runnable_mask();
-    if runnable == 0 {
+    let timed = self.timed_mask();
+    if runnable == 0 && timed == 0 {
       return None;
     }
     let mut cands = runnable;
@@ -283,24 +315,29 @@ impl State {
         }
       }
     }
+    // the really runnable candidates; threads parked with a timeout are candidates too (choosing one fires its
+    // timeout), but no default / random / priority policy prefers them to a runnable thread
+    let run_cands = cands;
+    cands |= timed;
     if cands.count_ones() == 1 {
       return Some(cands.trailing_zeros() as Tid);
     }
-    let cur = me.filter(|m| cands & (1 << m) != 0);
+    let cur = me.filter(|m| run_cands & (1 << m) != 0);
     let default = |cands: u32| -> Tid {
+      let pool = if run_cands != 0 { run_cands } else { cands };
       match (cur, holder) {
         (Some(m), _) => m,
         (None, Some(h)) => {
           let mut t = h;
           for _ in 0..32 {
             t = (t + 1) % 32;
-            if cands & (1 << t) != 0 {
+            if pool & (1 << t) != 0 {
               return t;
             }
           }
-          cands.trailing_zeros() as Tid
+          pool.trailing_zeros() as Tid
         }
-        (None, None) => cands.trailing_zeros() as Tid,
+        (None, None) => pool.trailing_zeros() as Tid,
       }
     };
     let mut chosen: Option<Tid> = None;
@@ -321,14 +358,17 @@ impl State {
           None => default(cands),
         },
         Strategy::Random { .. } => {
-          let n = cands.count_ones() as u64;
+          // a timeout fires early (while something else could run) once in ~200 decisions
+          let pool = if run_cands == 0 || (timed != 0 && self.rng.below(200) == 0) { cands } else { run_cands };
+          let n = pool.count_ones() as u64;
           let k = self.rng.below(n);
-          nth_set_bit(cands, k as u32)
+          nth_set_bit(pool, k as u32)
         }
         Strategy::Pct { .. } => {
+          let pool = if run_cands != 0 { run_cands } else { cands };
           let mut best: Option<Tid> = None;
           for t in 0..self.ts.len() {
-            if cands & (1 << t) != 0 {
+            if pool & (1 << t) != 0 {
               best = match best {
                 None => Some(t),
                 Some(b) => if self.prio[t] > self.prio[b] { Some(t) } else { Some(b) },
@@ -358,6 +398,7 @@ impl State {
     assert!(t < MAX_THREADS, "shim scheduler: too many threads");
     self.ts.push(TS::Runnable);
     self.token.push(false);
+    self.fired.push(false);
     let p = (self.rng.next() >> 16) as i64 & 0xFFFF_FFFF;
     self.prio.push(p + 1);
     t
@@ -554,6 +595,45 @@ pub(crate) fn park() {
   }
 }
 
+/// `thread::park_timeout`: a visible action. With a token: consume it and return. Otherwise the thread blocks as
+/// "parked with timeout": an `unpark` makes it runnable, or the scheduler FIRES THE TIMEOUT — by an explicit
+/// decision naming this thread, and always when no other thread is runnable (such a thread never takes part in a
+/// deadlock). A fired timeout sleeps the remaining real time first, so the caller's own `Instant` deadline test
+/// sees the deadline passed; this is the only place where the harness spends real time.
+pub(crate) fn park_timeout(dur: std::time::Duration) {
+  match current() {
+    None => std::thread::park_timeout(dur),
+    Some((ex, me)) => {
+      ex.point(me, false);
+      let mut st = ex.lock();
+      if st.token[me] {
+        st.token[me] = false;
+        drop(st);
+        ex.tlog(me, "parkt", "-", "1", "0");
+        return;
+      }
+      let deadline = std::time::Instant::now() + dur;
+      st.fired[me] = false;
+      let mut st = ex.block(me, st, TS::ParkedT);
+      let fired = st.fired[me] && !st.token[me];
+      st.fired[me] = false;
+      if !fired {
+        st.token[me] = false;
+      }
+      drop(st);
+      if fired {
+        let now = std::time::Instant::now();
+        if deadline > now {
+          std::thread::sleep(deadline - now + std::time::Duration::from_micros(200));
+        }
+        ex.tlog(me, "parkt", "-", "0", "0");
+      } else {
+        ex.tlog(me, "parkt", "-", "1", "0");
+      }
+    }
+  }
+}
+
 pub(crate) fn unpark(target: &ThreadInner) {
   match target {
     ThreadInner::Real(t) => {
@@ -573,7 +653,7 @@ pub(crate) fn unpark(target: &ThreadInner) {
       if *tid < st.ts.len() {
         let before = st.token[*tid];
         st.token[*tid] = true;
-        if st.ts[*tid] == TS::Parked {
+        if st.ts[*tid] == TS::Parked || st.ts[*tid] == TS::ParkedT {
           st.ts[*tid] = TS::Runnable;
         }
         drop(st);
@@ -721,6 +801,7 @@ where
   let mut st = State {
     ts: Vec::new(),
     token: Vec::new(),
+    fired: Vec::new(),
     active: Some(0),
     abort: None,
     done: false,
